@@ -71,7 +71,7 @@ func stripIface(v ssa.Value) ssa.Value {
 
 func deferredClosures(fn *ssa.Function) []*ssa.Function {
 	var out []*ssa.Function
-	for _, b := range fn.Blocks {
+	for _, b := range an.ScanBlocks(fn) {
 		for _, ins := range b.Instrs {
 			if d, ok := ins.(*ssa.Defer); ok {
 				if mc, ok := d.Call.Value.(*ssa.MakeClosure); ok {
@@ -98,7 +98,7 @@ func pumpCloses(c *an.Check, pump *ssa.Function, typ string) {
 				st = true
 			}
 		}
-		for _, b := range d.Blocks {
+		for _, b := range an.ScanBlocks(d) {
 			for _, ins := range b.Instrs {
 				if call, isCall := ins.(*ssa.Call); isCall && an.BuiltinName(call) == "close" && an.IsFieldLoad(call.Call.Args[0], pc) {
 					cl = true
@@ -111,7 +111,7 @@ func pumpCloses(c *an.Check, pump *ssa.Function, typ string) {
 	// sends/closes of the channel only from the pump
 	n, bad := 0, ""
 	for _, fn := range p.PkgFuncs("util/rwc") {
-		for _, b := range fn.Blocks {
+		for _, b := range an.ScanBlocks(fn) {
 			for _, ins := range b.Instrs {
 				if ch, _, isSend := an.SelectSend(ins); isSend && an.IsFieldLoad(ch, pc) {
 					n++
@@ -134,7 +134,7 @@ func pumpCloses(c *an.Check, pump *ssa.Function, typ string) {
 // closedChannelReported: a receive with ok==false leads to a non-nil error return.
 func closedChannelReported(c *an.Check, fn *ssa.Function, construct string) {
 	c.ErrProp(an.ErrPropSpec{Construct: construct, Fn: fn, ErrIdx: -1, Failing: func(s *an.State) (bool, string) {
-		for _, b := range fn.Blocks {
+		for _, b := range an.ScanBlocks(fn) {
 			for _, ins := range b.Instrs {
 				if sel, ok := ins.(*ssa.Select); ok && sel.Referrers() != nil {
 					for _, r := range *sel.Referrers() {
@@ -242,7 +242,7 @@ func c08(c *an.Check) {
 	wt := p.Func("util/rwc", T, "WriteTo")
 	if wt != nil {
 		var writes []*ssa.Call
-		for _, b := range wt.Blocks {
+		for _, b := range an.ScanBlocks(wt) {
 			for _, ins := range b.Instrs {
 				if isInvokeOf(ins, "io.Writer", "Write") {
 					writes = append(writes, ins.(*ssa.Call))
@@ -264,7 +264,7 @@ func c08(c *an.Check) {
 				sz, isAdd := gb.Call.Args[1].(*ssa.BinOp)
 				okW = isAdd && sz.Op == token.ADD && lenPkt(sz.X) && an.IsIntConst(sz.Y, 4) && lenPkt(put[0].Call.Args[2])
 				cp := false
-				for _, b := range wt.Blocks {
+				for _, b := range an.ScanBlocks(wt) {
 					for _, ins := range b.Instrs {
 						if cc, ok := ins.(*ssa.Call); ok && an.BuiltinName(cc) == "copy" && an.IsParam(cc.Call.Args[1], 1) {
 							if sl, ok := cc.Call.Args[0].(*ssa.Slice); ok && varOf(sl.X) == buf && an.IsIntConst(sl.Low, 4) && sl.High == nil {
@@ -299,7 +299,12 @@ func c08(c *an.Check) {
 	rfm := p.Func("util/rwc", T, "ReadFrom")
 	c.Gate(an.GateSpec{Construct: "rwc.PacketConn.ReadFrom nil-error return", Fn: rfm, Sink: nilErrReturn, Reqs: []an.Req{
 		an.FactReq("len(p) >= len(packet)", func(s *an.State, x, y ssa.Value, r an.Rel) bool {
-			return r != an.ANY && r&an.LT == 0 && an.LenOf(s, x, func(a ssa.Value) bool { return an.IsParam(a, 1) }) && an.LenOf(s, y, func(a ssa.Value) bool { _, isE := a.(*ssa.Extract); return isE })
+			// len(p) >= len(packet), or the same fact through the count copy(p, packet) returned (= min of the two lengths)
+			isDstLen := an.LenOf(s, x, func(a ssa.Value) bool { return an.IsParam(a, 1) })
+			if cp, ok := s.Canon(x).(*ssa.Call); ok && an.BuiltinName(cp) == "copy" && an.IsParam(s.Canon(cp.Call.Args[0]), 1) {
+				isDstLen = true
+			}
+			return r != an.ANY && r&an.LT == 0 && isDstLen && an.LenOf(s, y, func(a ssa.Value) bool { _, isE := a.(*ssa.Extract); return isE })
 		})}})
 	closedChannelReported(c, rfm, "rwc.PacketConn.ReadFrom reports a closed connection as an error")
 	// limits
@@ -332,7 +337,7 @@ func c08(c *an.Check) {
 				})}})
 		um := 0
 		okU := true
-		for _, b := range rm.Blocks {
+		for _, b := range an.ScanBlocks(rm) {
 			for _, ins := range b.Instrs {
 				if isInvokeOf(ins, "", "UnmarshalVT") {
 					um++
@@ -388,7 +393,7 @@ func c08(c *an.Check) {
 	lockHeld(sm, "sendMtx", func(ins ssa.Instruction) bool { return isInvokeOf(ins, "", "Write") }, "packet.Session.SendMsg stream write")
 	// SendMsg framing
 	var writes []*ssa.Call
-	for _, b := range sm.Blocks {
+	for _, b := range an.ScanBlocks(sm) {
 		for _, ins := range b.Instrs {
 			if isInvokeOf(ins, "", "Write") {
 				writes = append(writes, ins.(*ssa.Call))
@@ -415,7 +420,7 @@ func c08(c *an.Check) {
 			sz, isAdd := ms.Len.(*ssa.BinOp)
 			okS = isAdd && sz.Op == token.ADD && an.LenOf(st, sz.X, isData) && an.IsIntConst(sz.Y, 4) && an.LenOf(st, an.ConvOf(put[0].Call.Args[2]), isData)
 			cp := false
-			for _, b := range sm.Blocks {
+			for _, b := range an.ScanBlocks(sm) {
 				for _, ins := range b.Instrs {
 					if cc, ok := ins.(*ssa.Call); ok && an.BuiltinName(cc) == "copy" && isData(cc.Call.Args[1]) {
 						if sl, ok := cc.Call.Args[0].(*ssa.Slice); ok && sl.X == buf && an.IsIntConst(sl.Low, 4) && sl.High == nil {
@@ -622,7 +627,7 @@ func sendMsgAlwaysFrames(c *an.Check) {
 	}
 	c.Gate(an.GateSpec{Rule: "MUSTCALL", Construct: "packet.Session.SendMsg success-return", Fn: sm, Sink: successReturn,
 		Reqs: []an.Req{{Name: "a frame was written to the stream (Write executed and ok)", Holds: func(s *an.State, at ssa.Instruction) bool {
-			for _, b := range sm.Blocks {
+			for _, b := range an.ScanBlocks(sm) {
 				for _, ins := range b.Instrs {
 					call, ok := ins.(*ssa.Call)
 					if !ok {
